@@ -1,3 +1,159 @@
-From Coq Require Import List NArith.
+(** C16 — property theorems only (each closed by [exact]); see Proofs.v.
+
+    Vocabulary (all defined in Model.v): [build start sds] is [Profile.__init__] on a class
+    declaring the services [sds]; [run p ops] applies add_service / update_service (alone or
+    after add_characteristic / remove_characteristic) / remove_service; [dump p] is the
+    attribute database with every object reference resolved; [layout gaps p] says that the
+    database holds exactly the attributes of the listed services, each under its own handle,
+    in declaration order: declaration, include definitions, then per characteristic the
+    declaration at h, the value at h+1, the descriptors from h+2, end handle = last own
+    attribute, each service's range [handle..end] = its own attributes; with [gaps = false]
+    every service starts right after the previous one, the first one at the start handle,
+    and the next free handle is right after the last attribute. *)
+From Coq Require Import List NArith Arith Bool Permutation.
 From Whad Require Import Lib.Bytes C16.Model C16.Proofs.
-Example C16_nonvacuous : True. Proof. exact I. Qed.
+Import ListNotations.
+Open Scope N_scope.
+
+(** For ANY profile definition and start handle >= 1 the built database has the layout,
+    contiguous from the start handle. *)
+Theorem C16_build_layout :
+  forall (start : N) (sds : list sdef),
+    1 <= start -> layout false (build start sds) /\ p_start (build start sds) = start.
+Proof. exact build_layout. Qed.
+
+(** The layout, contiguity included, is preserved by every sequence of add / update /
+    add-characteristic+update / remove-characteristic+update operations, and none raises. *)
+Theorem C16_ops_layout_partial :
+  forall (start : N) (sds : list sdef) (ops : list op),
+    1 <= start -> no_remove ops = true ->
+    exists q, run (build start sds) ops = Done q /\ layout false q /\ p_start q = start.
+Proof. exact ops_layout_partial. Qed.
+
+(** With remove_service in the sequence everything but the contiguity ACROSS services still
+    holds for all sequences (distinct handles, every attribute under its own handle, order,
+    value right after declaration, descriptors after value, exact service ranges,
+    increasing disjoint ranges, next free handle above everything), and nothing raises. *)
+Theorem C16_ops_layout_gaps :
+  forall (start : N) (sds : list sdef) (ops : list op),
+    1 <= start ->
+    exists q, run (build start sds) ops = Done q /\ layout true q /\ p_start q = start.
+Proof. exact ops_layout_gaps. Qed.
+
+(** FULL STATEMENT (contiguity also after removals) — refuted by the faithful model:
+    remove_service leaves a gap (KNOWN-FINDING remove-service-leaves-handle-gap). *)
+Definition C16_ops_layout_statement : Prop :=
+  forall (start : N) (sds : list sdef) (ops : list op) (q : profile),
+    1 <= start -> run (build start sds) ops = Done q -> layout false q.
+
+Theorem C16_ops_layout_refuted :
+  exists start sds ops q, 1 <= start /\ run (build start sds) ops = Done q /\ ~ layout false q.
+Proof. exact ops_layout_refuted. Qed.
+
+(** What the layout means for the handles: distinct, every attribute found under the handle
+    it carries, no dangling reference ... *)
+Theorem C16_layout_distinct_handles :
+  forall g p, layout g p ->
+    NoDup (map fst (dump p))
+    /\ Forall (fun e => attr_handle (snd e) = fst e /\ snd e <> ADangling) (dump p).
+Proof. intros g p H. split; [exact (layout_distinct g p H)|exact (layout_handles g p H)]. Qed.
+
+(** ... and allocated contiguously without gaps from the start handle. *)
+Theorem C16_layout_contiguous :
+  forall p, layout false p ->
+    map fst (dump p) = Nseq (p_start p) (length (dump p)) /\ p_next p = p_start p + lenN (dump p).
+Proof. exact layout_contiguous. Qed.
+
+(** Lookups agree with the layout WHATEVER the registration order of the attribute dict.
+    [db_agrees p]: the dict holds exactly the attributes of the listed services, each under
+    its own handle, as a PERMUTATION of the layout (the model keeps Python's insertion order),
+    and the layout's handles are strictly ascending.  It holds for every class-built profile
+    after every operation sequence (there the dict order is proved to BE the ascending order:
+    [layout] states an equality of lists) and for every re-imported profile (whose dict is in
+    the order of the from_json loop: descriptors, declaration, value, ..., service last). *)
+Theorem C16_layout_agrees : forall g p, layout g p -> db_agrees p.
+Proof. exact layout_agrees. Qed.
+
+Theorem C16_lookup_by_handle :
+  forall p h a, db_agrees p ->
+    (find_by_handle p h = Some a <-> In (h, a) (flat_map svc_dump (p_svcs p))).
+Proof. exact lookup_by_handle. Qed.
+
+Theorem C16_lookup_by_handle_own :
+  forall p h a, db_agrees p -> find_by_handle p h = Some a -> attr_handle a = h.
+Proof. exact lookup_by_handle_own. Qed.
+
+(** find_objects_by_range (which sorts the handles it collected: the sort is modelled) *)
+Theorem C16_lookup_by_range :
+  forall p a b, db_agrees p ->
+    find_by_range p a b
+    = map snd (filter (fun e => (a <=? fst e) && (fst e <=? b)) (flat_map svc_dump (p_svcs p))).
+Proof. exact lookup_by_range. Qed.
+
+(** attr_by_type_uuid yields, in dict order, exactly the layout's attributes of the type in range *)
+Theorem C16_lookup_by_type :
+  forall p u a b, db_agrees p ->
+    Permutation (find_by_type p u a b)
+      (map fst (filter (fun e => uuid_eqb (attr_type (snd e)) u && (a <=? fst e) && (fst e <=? b))
+                       (flat_map svc_dump (p_svcs p)))).
+Proof. exact lookup_by_type. Qed.
+
+(** service(uuid) / char(uuid) return the first of exactly the layout's matches *)
+Theorem C16_lookup_service_by_uuid :
+  forall p u, db_agrees p ->
+    Permutation (find_services p u) (map s_handle (filter (fun s => uuid_eqb (s_uuid s) u) (p_svcs p))).
+Proof. exact lookup_service. Qed.
+
+Theorem C16_lookup_char_by_uuid :
+  forall p u, db_agrees p ->
+    Permutation (find_chars p u)
+      (map c_handle (filter (fun c => uuid_eqb (c_uuid c) u) (flat_map s_chars (p_svcs p)))).
+Proof. exact lookup_char. Qed.
+
+Theorem C16_lookup_char_by_value_handle :
+  forall p s c, db_agrees p -> In s (p_svcs p) -> In c (s_chars s) ->
+    find_chr_by_value_handle p (c_vhandle c) = LSome (c_handle c).
+Proof. exact lookup_value_handle. Qed.
+
+Theorem C16_lookup_service_by_char_handle :
+  forall p s c, db_agrees p -> In s (p_svcs p) -> In c (s_chars s) ->
+    find_svc_by_chr_handle p (c_handle c) = LSome (s_handle s).
+Proof. exact lookup_service_of_char. Qed.
+
+(** JSON: for every profile reachable by any definition and ANY operation sequence
+    (removals included), the import of its export does not raise,
+    export (import (export p)) = export p  (same handles, UUIDs, properties, security
+    requirements, values and descriptors), and the imported profile agrees with its layout
+    (so all the lookup theorems above hold on it). *)
+Theorem C16_import_export_id :
+  forall (start : N) (sds : list sdef) (ops : list op) (q : profile),
+    1 <= start -> run (build start sds) ops = Done q ->
+    exists q', import (export q) = Done q' /\ export q' = export q /\ db_agrees q'.
+Proof. exact import_export_reachable. Qed.
+
+(** Security requirements survive accesses -> int -> accesses -> int; an int keeps exactly
+    its six defined bits (swept over one byte). *)
+Theorem C16_security_roundtrip :
+  forall l : list access, acc_to_int (int_to_acc (acc_to_int l)) = acc_to_int l.
+Proof. exact security_roundtrip. Qed.
+
+Theorem C16_security_int_roundtrip :
+  forall n : N, n < 256 -> acc_to_int (int_to_acc n) = N.land n 0x77.
+Proof. exact security_int_roundtrip. Qed.
+
+(** Non-vacuity: a concrete profile (a notifying characteristic with a user description,
+    a second service), update_service of the first service, then a service added: seven
+    then ten attributes at handles 1.., and the JSON round trip succeeds. *)
+Example C16_nonvacuous :
+  let c1 := mkCD (u16 0x2A00) [65] 0 (Some [PRead; PNotify]) false false (Some [104; 105]) [] [] in
+  let c2 := mkCD (u16 0x2A01) [] 8 None false false None [mkA ARead true true false] [DDreport] in
+  let p0 := build 1 [mkSD SKprimary (u16 0x1800) [] [c1]; mkSD SKprimary (u16 0x1801) [] []] in
+  map fst (dump p0) = [1; 2; 3; 4; 5; 6]
+  /\ exists q, run p0 [OpUpdate 0%nat; OpAdd (mkSD SKprimary (u16 0x1802) [] [c2])] = Done q
+               /\ map fst (dump q) = [1; 2; 3; 4; 5; 6; 7; 8; 9; 10] /\ p_next q = 11
+               /\ exists q', import (export q) = Done q' /\ export q' = export q.
+Proof.
+  cbv zeta. split; [vm_compute; reflexivity|]. eexists. split; [vm_compute; reflexivity|].
+  split; [vm_compute; reflexivity|]. split; [vm_compute; reflexivity|].
+  eexists. split; vm_compute; reflexivity.
+Qed.
